@@ -247,8 +247,12 @@ def finish(pid, tier, seed, mod, results, wall, verbose=False):
     evidence["coverage"]["states"] = 1
   if evidence["coverage"]["transitions"] < 1:
     evidence["coverage"]["transitions"] = 1
-  os.makedirs(os.path.join(HERE, "evidence"), exist_ok=True)
-  with open(os.path.join(HERE, "evidence", pid + ".json"), "w") as f:
+  evdir = os.path.join(HERE, "evidence")
+  if os.path.realpath(os.environ.get("VERIF_REPO", "/repo")) != "/repo":
+    # development run against a scratch copy: never touch the committed evidence
+    evdir = os.path.join("/tmp", "verif_scratch_evidence")
+  os.makedirs(evdir, exist_ok=True)
+  with open(os.path.join(evdir, pid + ".json"), "w") as f:
     json.dump(evidence, f, indent=1, default=str)
 
   print("%s tier=%s cases=%d paths=%d vcs=%d unsat=%d sat=%d unknown=%d conditions=%d confirmed=%d "
